@@ -35,3 +35,22 @@ Definition nonce_of (c : cipher) : option N := match c with Sealed _ n _ => Some
 (* observable result classes of the differential driver *)
 Inductive dres := DOk (pt : bytes) | DFail.
 Definition decrypt_res (key : N) (c : cipher) : dres := match decrypt key c with Some p => DOk p | None => DFail end.
+
+(** ** Data keys of sessions (pkg/session: manager.Create -> NewTicket -> crypto.RandomBytes)
+    Every login draws a NEW data key from the random source, whatever the callback request carries - in particular
+    whatever session cookie of an earlier login of the same browser travels with it, under the same or another
+    provider session id. A login is given by the store key of the session it creates and the position of the earlier
+    login whose ticket the callback request carried (if any); that ticket plays no role. *)
+Record sticket := { st_key : N; st_dek : N }.
+
+Fixpoint mint_all (rnd : N) (logins : list (N * option N)) : list sticket :=
+  match logins with
+  | [] => []
+  | (k, _) :: r => {| st_key := k; st_dek := rnd |} :: mint_all (rnd + 1) r
+  end.
+
+(* the stored value of a session: its data sealed under the session's data key *)
+Definition session_blob (t : sticket) (nonce : N) (data : bytes) : cipher := Sealed (st_dek t) nonce data.
+
+(* presenting ticket t while the store holds, under t's key, the value written for ticket u *)
+Definition open_with_ticket (t u : sticket) (nonce : N) (data : bytes) : option bytes := decrypt (st_dek t) (session_blob u nonce data).
